@@ -64,7 +64,10 @@ def mkCtx (hist : Bytes) (real : String) : Ctx :=
   let (mres, wf) := runLinesW lines
   let model := annotateWith (fun ls => (runLines ls).map (·.1)) lines (mres.map (·.1))
   { lines := lines, steps := steps, sets := stepSets lines (steps.map (·.res)),
-    modelAgrees := model == realSteps, modelSites := mres.map (·.2), prefixReuse := prefixReuseIn wf,
+    -- steps whose execution lies outside the modelled fragment (the analysis is still modelled, so the state stays
+    -- faithful) are not compared
+    modelAgrees := model.length == realSteps.length &&
+      (model.zip realSteps).all (fun p => p.1 == p.2 || (p.1.splitOn "unsupported").length > 1), modelSites := mres.map (·.2), prefixReuse := prefixReuseIn wf,
     oddNames := lines.any fun l => (Ops.Tmpl.fieldsOf l).any fun f =>
       match unhex f with
       | some b => ((SafeHtml.Model.Tmpl.strOfBytes b).splitOn "$htmltemplate_").length > 1
